@@ -515,14 +515,11 @@ class Resolver:
             out: List[ClassInfo] = []
             elem = None
             for c in base.classes:
-                for k in c.mro():
-                    if expr.attr in k.attr_ann:
-                        t = ix.type_from_annotation(k.module.name, k.attr_ann[expr.attr])
-                        for cc in t.classes:
-                            if cc not in out:
-                                out.append(cc)
-                        elem = elem or t.elem
-                        break
+                t = self.attr_type(c, expr.attr)
+                for cc in t.classes:
+                    if cc not in out:
+                        out.append(cc)
+                elem = elem or t.elem
             return TypeRef(tuple(out), elem)
         if isinstance(expr, ast.Subscript):
             base = self.type_of(expr.value, fi, env)
@@ -550,6 +547,52 @@ class Resolver:
             a = self.type_of(expr.body, fi, env)
             b = self.type_of(expr.orelse, fi, env)
             return TypeRef(tuple(dict.fromkeys(a.classes + b.classes)), a.elem or b.elem)
+        return TypeRef()
+
+    def attr_type(self, c: ClassInfo, attr: str) -> TypeRef:
+        """Type of ``<instance of c>.attr``.
+
+        The annotation found in the MRO; refined when a base ``__init__`` stores a parameter
+        (``self.attr = p``) and the concrete class's ``__init__`` hands a more precisely
+        annotated parameter to ``super().__init__(p=q)``.
+        """
+        ix = self.index
+        for k in c.mro():
+            if attr not in k.attr_ann:
+                continue
+            t = ix.type_from_annotation(k.module.name, k.attr_ann[attr])
+            if k is not c and "__init__" in k.methods:
+                pname = None
+                for sub in ast.walk(k.methods["__init__"].node):
+                    if (
+                        isinstance(sub, ast.Assign)
+                        and len(sub.targets) == 1
+                        and isinstance(sub.targets[0], ast.Attribute)
+                        and sub.targets[0].attr == attr
+                        and isinstance(sub.value, ast.Name)
+                    ):
+                        pname = sub.value.id
+                init = c.methods.get("__init__")
+                if pname and init is not None:
+                    pann = {a.arg: a.annotation for a in init.node.args.args if a.annotation is not None}
+                    for sub in ast.walk(init.node):
+                        if (
+                            isinstance(sub, ast.Call)
+                            and isinstance(sub.func, ast.Attribute)
+                            and sub.func.attr == "__init__"
+                            and isinstance(sub.func.value, ast.Call)
+                            and isinstance(sub.func.value.func, ast.Name)
+                            and sub.func.value.func.id == "super"
+                        ):
+                            from .binder import bind
+
+                            b = bind(sub, k.methods["__init__"])
+                            v = b.bound.get(pname)
+                            if isinstance(v, ast.Name) and v.id in pann:
+                                t2 = ix.type_from_annotation(c.module.name, pann[v.id])
+                                if t2:
+                                    return t2
+            return t
         return TypeRef()
 
     def _ctor_class(self, call: ast.Call, fi: FuncInfo) -> Optional[ClassInfo]:
